@@ -251,6 +251,9 @@ pub fn exec(op: &str, a: &[u64]) -> Result<Outcome, String> {
             if !(iw > 0.0 || dw > 0.0) {
                 return Err("both probabilities zero".into());
             }
+            if !(gen::is_clean_str(&s) && unmixed(&s, g)) {
+                return Err("wstask is only defined on the property's domain: clean texts whose clusters do not mix white space and other characters".into());
+            }
             use text_utils::data::task::{train_task, TrainTaskConfig};
             use text_utils::data::TrainTaskInput;
             use text_utils::tokenization::{CharTokenizerConfig, SpecialConfig, TokenizeConfig, TokenizerConfig};
@@ -263,6 +266,16 @@ pub fn exec(op: &str, a: &[u64]) -> Result<Outcome, String> {
             let task = train_task(TrainTaskConfig::WhitespaceCorrection(g, cfg));
             let res = task(&item);
             let mut o;
+            // F15: in grapheme mode an inserted space can fuse with a following lone Extend / ZWJ cluster when the
+            // corrupted string is segmented again; the task then sees other characters than the cluster-level model
+            {
+                let nonws = |x: &str| clusters(x, g).into_iter().filter(|c| !c.iter().all(|&u| char::from_u32(u as u32).unwrap().is_whitespace())).collect::<Vec<_>>();
+                if g && gen::is_clean_str(&s) && unmixed(&s, g) && (nonws(&out) != nonws(&s) || !unmixed(&out, g)) {
+                    let mut o = Outcome::new("f15".to_string());
+                    o.check(false, "F15 corrupted text re-segments differently: inserted space fuses with a following Extend cluster");
+                    return Ok(o);
+                }
+            }
             match res {
                 Ok(TrainTaskInput::SequenceClassification { token_ids, labels, .. }) => {
                     let mut v = vec![token_ids.len() as u64];
@@ -516,8 +529,9 @@ pub fn run_c14(ctx: &mut Ctx) {
         };
         enc_str(&mut v, &out);
         ctx.case("corruptws", &v);
-        if i % 3 == 0 {
-            // the whitespace-correction task on the corrupted item, with 0-2 prefix and suffix tokens
+        if i % 3 == 0 && gen::is_clean_str(&s) && unmixed(&s, g) {
+            // the whitespace-correction task on the corrupted item (clean texts: the property's domain), with 0-2
+            // prefix and suffix tokens
             let np = ctx.rng.random_range(0..=2u64);
             let ns = ctx.rng.random_range(0..=2u64);
             let mut v = req_gtext(&s, g);
